@@ -21,7 +21,7 @@ DESIGN_REF = "DESIGN.md §3 C17"
 RULE = (
     "Histories of construct / add_mapping / drop_semi_singleton_mapping / check_semi_singleton_entry_exists / "
     "get_all_semi_singleton_instances / clear_semi_singleton over a fresh class family per case: A and B sharing "
-    "one metaclass object, C(A) a subclass, D with its own default metaclass, E with a custom hashfunc, F whose instances are falsy, G whose __init__ refuses some arguments (a failed construction must register nothing); __init__ "
+    "one metaclass object, C(A) a subclass, D with its own default metaclass, E with a custom hashfunc, F whose instances are falsy, G whose __init__ refuses some arguments (a failed construction must register nothing), H with a custom hashfunc for which keyword ORDER matters; __init__ "
     "counts its runs and stamps a serial number (the harness keeps no reference to instances between calls).  Argument values from a domain where key equality is unambiguous (ints incl. the "
     "hash-colliding -1/-2, strs, tuples; never mixing 1/1.0/True), keyword-order permutations incl. equal nested dict values built in different insertion orders.  Bounded-exhaustive "
     "for all histories up to the stated length over {A,B,C} x 3 argument values, Hypothesis beyond.  Oracle = a dict "
@@ -53,7 +53,7 @@ def budget(tier):
 
 
 def strategy(tier):
-    op = st.tuples(st.sampled_from(OPS), st.integers(0, 6), st.integers(0, len(ARGS) - 1), st.integers(0, 5))
+    op = st.tuples(st.sampled_from(OPS), st.integers(0, 7), st.integers(0, len(ARGS) - 1), st.integers(0, 5))
     return st.builds(lambda ops: {"ops": [list(o) for o in ops]}, st.lists(op, max_size=40))
 
 
@@ -128,7 +128,12 @@ def family():
                 raise _Abort()          # not an Exception subclass (like KeyboardInterrupt), survived by the caller
             init(self, *a, **k)
 
-    return [A, B, C, D, E, F, G], ninit, hf
+    class H(metaclass=S.semi_singleton_metaclass(hashfunc=lambda a, k: (a, tuple(k)))):
+        """A custom hashfunc for which the ORDER of the keyword arguments matters."""
+
+        __init__ = init
+
+    return [A, B, C, D, E, F, G, H], ninit, hf
 
 
 KWARGS = [{}, {"x": 1, "y": 2}, {"y": 2, "x": 1}, {"x": 2}, {"attrs": {"a": 1, "b": 2}}, {"attrs": {"b": 2, "a": 1}}]
@@ -155,7 +160,7 @@ def check_case(case):
 
     CL, ninit, hf = family()
     NC = len(CL)
-    names = ["A", "B", "C", "D", "E", "F", "G"]
+    names = ["A", "B", "C", "D", "E", "F", "G", "H"]
     model = {c: {} for c in CL}   # key -> (serial, constructor args that reach it)
     classes = set()
     touched = set()
@@ -172,6 +177,8 @@ def check_case(case):
     def key(c, a, kwargs):
         if c is CL[4]:
             return hf((a,), kwargs)
+        if c is CL[7]:
+            return ((a,), tuple(kwargs))     # H keys on the positional args and the keyword NAMES in call order
         return (a, _canon(kwargs))
 
     def verify_all(where):
